@@ -61,6 +61,11 @@ def run(chk):
                             c = Case(prog, mem=pk, fam=name)
                             lines.append(c.line(engine=eng, kind='fixed') + ' d=%d e=%d reps=%d' % (d, e, reps))
                             meta.append(('fixed', eng, name, pk, (d, e), c))
+                        # the same VM executed first on another packet: the buffer must describe the current packet, not the earlier one
+                        for prev in (bytes(range(1, 7)) + pk, bytes(2000)):      # longer than the packet: the probes stay in bounds there
+                            c = Case(prog, mem=pk, xmem=prev, fam=name + ':after-other-packet')
+                            lines.append(c.line(engine=eng, kind='fixed') + ' d=%d e=%d prev=1' % (d, e))
+                            meta.append(('fixed', eng, name, pk, (d, e), c))
         answers = [parse_answer(x) for x in vlib.harness_run(binary, lines)]
         nchecked = 0
         outs = {}
@@ -97,7 +102,7 @@ def run(chk):
             elif name == 'fixed-len':
                 exp = ln
             elif name == 'fixed-start' and L:
-                exp = L[0] if ln else None     # an empty packet has no first byte: only start == end is required (fixed-len)
+                exp = L[0] if ln else None     # an empty packet has no first byte (the JIT passes null, the others the dangling slice address): only start == end is required (fixed-len)
             elif name == 'fixed-first-byte':
                 exp = pk[0] if ln else 'err'
             elif name == 'fixed-last-byte':
@@ -123,7 +128,7 @@ def run(chk):
         chk.cov['distinct_nontrivial'] = nchecked
         chk.cov['rule'] = ('probe programs (r1, private stack top/bottom, absolute/indirect packet load, the two words of the fixed metadata '
                            'buffer) x 4 VM kinds x 3 engines x packet lengths {0,1,7,8,9,1500} x 8 (data, data_end) offset pairs x 1 or 2 '
-                           'successive executions; non-trivial = a case with an expected value derived from the layout (counted)')
+                           'successive executions (fresh VM each) and executions after the same VM ran on another packet; non-trivial = a case with an expected value derived from the layout (counted)')
         chk.cov['input_distribution'] = {'%s/%s' % k: v for k, v in outs.items()}
         chk.cov['samples'] = [{'request': lines[i][:260], 'answer': answers[i]['raw'][:120]} for i in (0, 400, len(lines) - 1)]
     vlib.report_broken(chk, res, found)
